@@ -2,6 +2,7 @@ package util
 
 import (
 	"strings"
+	"unicode/utf8"
 )
 
 func CleanUTF8(s []byte) []byte {
@@ -26,4 +27,25 @@ func findLastEndOfASCII(s []byte) int {
 		}
 	}
 	return 0
+}
+
+// ToValidUTF8Strings returns the given strings with invalid UTF-8 sequences replaced, e.g. for use as metric label values.
+//
+// The input slice is returned as is if all strings are valid.
+func ToValidUTF8Strings(values []string) []string {
+	allValid := true
+	for _, v := range values {
+		if !utf8.ValidString(v) {
+			allValid = false
+			break
+		}
+	}
+	if allValid {
+		return values
+	}
+	results := make([]string, len(values))
+	for i, v := range values {
+		results[i] = strings.ToValidUTF8(v, "\uFFFD")
+	}
+	return results
 }
